@@ -173,6 +173,12 @@ def run(chk):
         ((E(a) - E(i)) * V_ * h_ / (D2 * (E(a) - E(i))), [j]),
         (E(i) * V_ * AntiSymmetricTensor(tn.eri, (i, k), (a, b), 1) / D2, [k]),
         (-(E(a) + 2 * E(b)) * V_ / D2, [i, j]),
+        # brackets that change sign under an exchange of two indices of one
+        # space, with a remainder that changes sign too (0/0 at i = j is 0 in
+        # the model: Inv(0) = 0 and the antisymmetric remainder vanishes)
+        (E(i) * V_ / (E(i) - E(j)), [a, b]),
+        (E(i) * V_ * h_ / ((E(i) - E(j)) * D2), []),
+        ((E(a) + E(i)) * V_ / ((E(i) - E(j)) * (E(a) - E(b))), []),
     ]
     for term, tsyms in structured:
         pre = Expr(term, real=True, target_idx=tsyms)
@@ -284,6 +290,40 @@ def run(chk):
                         set(prov) != set(pre_copy.terms[0].target):
                     chk.report_direct("fock:targets", f"{what}: target "
                                       f"indices changed to {prov}", {})
+    # chains of Fock elements that share indices, in every naming (the order
+    # in which the elements are met depends on the index names): either
+    # refused (NotImplementedError) or value preserving
+    from itertools import permutations
+    chain_cases = []
+    for letters in ("ijk", "abc"):
+        for p_ in permutations(letters):
+            x0, x1, x2 = get_symbols("".join(p_))
+            F = lambda u, l: AntiSymmetricTensor(tn.fock, (u,), (l,), 1)  # noqa
+            X1 = NonSymmetricTensor("nq", (x2,))
+            chain_cases.append((F(x0, x1) * F(x1, x2) * X1, [x0]))
+            chain_cases.append((F(x0, x1) * F(x1, x2) * F(x2, x0), []))
+            chain_cases.append((F(x0, x1) * F(x2, x1) *
+                                NonSymmetricTensor("nq", (x0, x2)), []))
+    for p_ in (list(permutations("ijkl"))[::3] if quick
+               else permutations("ijkl")):
+        x0, x1, x2, x3 = get_symbols("".join(p_))
+        chain_cases.append((F(x0, x1) * F(x1, x2) * F(x2, x3) *
+                            NonSymmetricTensor("nq", (x3,)), [x0]))
+    for term, tsyms in chain_cases:
+        pre = Expr(term, real=True, target_idx=tsyms)
+        pre_copy = Expr(pre.sympy, **pre.assumptions)
+        post, exc = guarded(pre.diagonalize_fock)
+        chk.count("operations")
+        what = f"Expr({term}, target_idx={tsyms}).diagonalize_fock()"
+        if exc:
+            if exc["type"] == "NotImplementedError":
+                chk.count("refused")
+                continue
+            chk.report_direct("fock:diagonalize_fock:exception", f"{what} "
+                              f"raised {exc['type']}: {exc['msg']}", exc)
+            continue
+        emit(chk, pre_copy, post, "fock:chain:diagonalize_fock", what, tsyms,
+             fock="diag")
     chk.judge(chunk=600)
     if chk.tier != "quick":
         # system-level workflows (spec/Pipeline.tla): the steps that belong
